@@ -166,6 +166,8 @@ enum Case {
 	Distortion { kind: DistortionKind, drive_db: f32, x: f32 },
 	VolumePan { db: f32, pan: f32, x: (f32, f32) },
 	FilterSamples { sr: u32, mode: FilterMode, cutoff: f64, resonance: f64, n: usize },
+	/// an EQ that has rested at exactly 0 dB (where it is transparent) is sent to `gain_db`
+	EqLeavesUnity { sr: u32, kind: EqFilterKind, frequency: f64, q: f64, gain_db: f32, rest: usize, tween: usize },
 }
 
 fn inner_spec(i: &Inner) -> FxSpec {
@@ -285,6 +287,69 @@ fn run_one(c: &Case) -> Result<(), Failure> {
 					FilterMode::Notch => v0 - k * v1,
 				};
 				ensure!((out[i].left as f64 - want).abs() <= 1e-4 * peak.max(1.0) * (1.0 + 1.0 / k), "filter-matches-cited-algorithm", "{mode:?} filter (corner {cutoff:.2} Hz, resonance {resonance:.3}, {sr} Hz): frame {i} = {}, reference state-variable filter gives {want}", out[i].left);
+			}
+		}
+		Case::EqLeavesUnity { sr, kind, frequency, q, gain_db, rest, tween } => {
+			// The cited design is continuous in the gain: a band that rested at exactly 0 dB and a band
+			// that rested a thousandth of a decibel away from it are the same filter to well below
+			// audibility, while they rest (where the first is exactly transparent) and after both have
+			// been sent to the same gain with the same tween. In particular the filter's state keeps
+			// following the input while the band is flat.
+			let sig = crate::scene::signal::SigSpec {
+				kind: crate::scene::signal::SigKind::Noise,
+				amp: 0.5,
+				seed: 4242,
+				freq: 0.01,
+				stereo_skew: 1.0,
+			};
+			let n = rest + tween + 2048;
+			let input = render_sig(&sig, n);
+			let run = |g0: f32| -> Vec<Frame> {
+				let (mut fx, h) = crate::scene::fx::build(&FxSpec::Eq { kind: *kind, frequency: *frequency, gain_db: g0, q: *q });
+				let mut h = match h {
+					crate::scene::fx::FxHandle::Eq(h) => h,
+					_ => unreachable!(),
+				};
+				fx.init(*sr, 64);
+				let dt = 1.0 / *sr as f64;
+				let mut out = input.clone();
+				let mut sent = false;
+				let mut i = 0;
+				while i < n {
+					if !sent && i >= *rest {
+						h.set_gain(
+							kira::Decibels(*gain_db),
+							kira::Tween {
+								duration: std::time::Duration::from_secs_f64(*tween as f64 * dt),
+								..Default::default()
+							},
+						);
+						sent = true;
+					}
+					let k = 64.min(n - i);
+					fx.on_start_processing();
+					fx.process(&mut out[i..i + k], dt, &info);
+					i += k;
+				}
+				out
+			};
+			let a = run(0.0);
+			let b = run(if *gain_db >= 0.0 { 0.001 } else { -0.001 });
+			let first_after = (*rest + 63) / 64 * 64;
+			for i in 0..first_after.min(n) {
+				ensure!(a[i] == input[i], "eq-unity-pass-band", "{kind:?} EQ at 0 dB ({frequency:.2} Hz, q {q:.3}, {sr} Hz): frame {i} = {:?}, the input is {:?}", a[i], input[i]);
+			}
+			let peak = b.iter().fold(0.0f32, |m, f| m.max(f.left.abs())).max(1.0) as f64;
+			// (a thousandth of a decibel is 1.2e-4 of the signal; resonant bands ring that much longer)
+			let tol = 2e-3 * peak * (1.0 + *q);
+			for i in 0..n {
+				ensure!(
+					(a[i].left as f64 - b[i].left as f64).abs() <= tol && (a[i].right as f64 - b[i].right as f64).abs() <= tol,
+					"eq-state-follows-the-input-while-flat",
+					"{kind:?} EQ ({frequency:.2} Hz, q {q:.3}, {sr} Hz) sent from 0 dB to {gain_db} dB after {rest} frames (tween {tween} frames): frame {i} = {:?}; the same band started at +-0.001 dB gives {:?}",
+					a[i],
+					b[i]
+				);
 			}
 		}
 		Case::Delay { sr, ibs, time_s, feedback_db, mix, inner, n, amp: a } => {
@@ -502,7 +567,16 @@ fn decode(src: &mut Src, tier: Tier) -> Case {
 	let nyq = sr as f64 / 2.0;
 	let modes = [FilterMode::LowPass, FilterMode::BandPass, FilterMode::HighPass, FilterMode::Notch];
 	let kinds = [EqFilterKind::Bell, EqFilterKind::LowShelf, EqFilterKind::HighShelf];
-	match src.weighted(&[3, 3, 3, 4, 2, 3, 2, 2]) {
+	match src.weighted(&[3, 3, 3, 4, 2, 3, 2, 2, 2]) {
+		8 => Case::EqLeavesUnity {
+			sr,
+			kind: src.pick(&kinds),
+			frequency: src.f64_log(20.0, nyq * 0.9),
+			q: src.f64_log(0.1, 10.0),
+			gain_db: src.pick(&[12.0f32, -12.0, 6.0, 24.0, -24.0, 3.0]),
+			rest: src.pick(&[256usize, 64, 1000, 4096, 100]),
+			tween: src.pick(&[0usize, 1, 64, 500, 3000]),
+		},
 		0 => {
 			let cutoff = src.f64_log(20.0, nyq * 0.9);
 			// probe within two octaves of the corner (and inside 10 Hz .. 0.9 Nyquist)
@@ -602,7 +676,7 @@ impl Property for C14 {
 		"C14"
 	}
 	fn rule(&self) -> &'static str {
-		"each case builds one effect through its public builder with generated parameters and a sample rate 8k..192k and compares it with an independent reference: filter (4 modes) and EQ (3 kinds): sine gain measured at a probe frequency within two octaves of the corner against the analytic magnitude of the cited state-variable design (0.1 dB + 5e-4/g dB, g = tan(pi corner / rate)), corner / centre / shelf landmarks - in a quarter of the cases on an effect instance that first ran at another device rate and was then told the new one -, and sample-by-sample agreement of the filter with an f64 implementation of the cited algorithm on noise; delay: impulse trains against a reference delay line with floor(time x rate) frames, feedback gain applied once per round trip after the feedback effects (volume, hard / soft clip), sqrt mix law (1e-5 per frame); reverb: sample-by-sample against an f64 Freeverb network (8 combs + 4 all-passes per channel, tunings x rate/44100, spread 23, input gain 0.015) and a decaying tail for feedback < 1; compressor: unchanged below threshold, steady-state reduction (level - threshold)(1 - 1/ratio) dB (0.05 dB), 63.2% of it after the attack time and 36.8% one release time after the level falls below the threshold or to digital silence (2%), with the signal on both channels, the left only or the right only; distortion: clamp(x d)/d and x d/(1+|x d|)/d, transparent for small signals; volume / panning control: decibel and equal-power laws. Non-trivial = parameters differ from the builder defaults (always, by generation) and the probe lies within two octaves of the corner; distinct = distinct decoded choices."
+		"each case builds one effect through its public builder with generated parameters and a sample rate 8k..192k and compares it with an independent reference: filter (4 modes) and EQ (3 kinds): sine gain measured at a probe frequency within two octaves of the corner against the analytic magnitude of the cited state-variable design (0.1 dB + 5e-4/g dB, g = tan(pi corner / rate)), corner / centre / shelf landmarks - in a quarter of the cases on an effect instance that first ran at another device rate and was then told the new one -, and sample-by-sample agreement of the filter with an f64 implementation of the cited algorithm on noise; delay: impulse trains against a reference delay line with floor(time x rate) frames, feedback gain applied once per round trip after the feedback effects (volume, hard / soft clip), sqrt mix law (1e-5 per frame); reverb: sample-by-sample against an f64 Freeverb network (8 combs + 4 all-passes per channel, tunings x rate/44100, spread 23, input gain 0.015) and a decaying tail for feedback < 1; compressor: unchanged below threshold, steady-state reduction (level - threshold)(1 - 1/ratio) dB (0.05 dB), 63.2% of it after the attack time and 36.8% one release time after the level falls below the threshold or to digital silence (2%), with the signal on both channels, the left only or the right only; distortion: clamp(x d)/d and x d/(1+|x d|)/d, transparent for small signals; volume / panning control: decibel and equal-power laws. An EQ band that rested at exactly 0 dB for 64..4096 frames of noise (bit-exact pass-through meanwhile) and is then sent to +-3..24 dB with a tween of 0..3000 frames must agree, frame by frame (2e-3 x (1 + q) of the peak), with the same band started a thousandth of a decibel away from 0 dB - the filter state follows the input while the band is flat. Non-trivial = parameters differ from the builder defaults (always, by generation) and the probe lies within two octaves of the corner; distinct = distinct decoded choices."
 	}
 	fn assumptions(&self) -> Vec<String> {
 		vec![
@@ -627,6 +701,7 @@ impl Property for C14 {
 			Case::Filter { .. } => "filter-response",
 			Case::Eq { .. } => "eq-response",
 			Case::FilterSamples { .. } => "filter-samples",
+			Case::EqLeavesUnity { .. } => "eq-leaves-unity",
 			Case::Delay { .. } => "delay",
 			Case::Reverb { .. } => "reverb",
 			Case::Compressor { .. } => "compressor",
